@@ -164,7 +164,12 @@ def check(case, ctx):
                 cls = 'left' if want.real < 0 else 'right'
                 ctx.check(abs(ut - want) <= 1e-7, 'singular/unit_tangent/t%d/order%d/%s_half_plane' % (e, k, cls),
                           'unit_tangent(%d)=%r at a vanishing derivative; the limit from inside is %r' % (e, ut, want))
-                near = complex(seg.unit_tangent(1e-6 if e == 0 else 1 - 1e-6))
+                # step into the interval, small against the scale on which the next derivative takes over
+                fp_ = [R.fpt(p) for p in spec[1:]]
+                dk = abs(R.to_c(R.bern_deriv(fp_, F(e), k)))
+                dk1 = abs(R.to_c(R.bern_deriv(fp_, F(e), k + 1))) if k + 1 <= len(fp_) - 1 else 0.0
+                step = 1e-6 if dk1 == 0 else min(1e-6, 1e-3 * dk / dk1)
+                near = complex(seg.unit_tangent(step if e == 0 else 1 - step))
                 ctx.check(abs(ut - near) <= 0.5, 'singular/inconsistent_with_neighbourhood/t%d' % e,
                           'unit_tangent(%d)=%r but unit_tangent one 1e-6 step inside is %r' % (e, ut, near))
                 nv = complex(ctx.lib('normal/singular', seg.normal, float(e)))
@@ -198,7 +203,8 @@ def check(case, ctx):
                     eut, ek, tt = -base_ut, base_k, 1 - t
                 ctx.count('transform:' + tr)
                 out = complex(ctx.lib('unit_tangent/' + tr, other.unit_tangent, tt))
-                ctol = 1e-5 if kind == 'A' else 1e-8
+                pos_ = max(abs(gen.C(p)) for p in gen.spec_points(spec)) + size * (1 + abs(gen.C(tp['z'])))
+                ctol = (1e-5 if kind == 'A' else 1e-8) + 4096 * EPS * pos_ / abs(d1)
                 ctx.check(abs(out - eut) <= ctol, 'covariance/unit_tangent/%s/%s' % (tr, kind), '%s: unit_tangent=%r, expected %r' % (tr, out, eut))
                 ok = float(ctx.lib('curvature/' + tr, other.curvature, tt))
                 pos = max(abs(gen.C(p)) for p in gen.spec_points(spec)) + size * (1 + abs(gen.C(tp['z'])))
